@@ -1863,7 +1863,8 @@ def parse_timedelta(s, default="seconds"):
     if isinstance(s, Number):
         s = str(s)
     s = s.replace(" ", "")
-    if not s[0].isdigit():
+    if not (s[0].isdigit() or s[0] == "."):
+        # a bare unit such as "ms" means one of it; ".5s" already starts with its number
         s = f"1{s}"
 
     for i in range(len(s) - 1, -1, -1):
